@@ -195,3 +195,32 @@ func init() {
 	ctl("Rows are not expanded", "N-COVER", "member Rows", "ovsdb", "", "ExpandNamedUUIDs", kStmt, "for _, row := range op.Rows", 0, del)
 	ctl("map keys expanded only for uuid values", "N-POS", "expandNamedUUID|expansion guard", "ovsdb", "", "expandNamedUUID", kExpr, "column.Type == TypeMap", 0, to("valType == TypeUUID"))
 }
+
+func init() {
+	// ---- rules added after the seeded-change rounds
+	ctl("unchanged columns skip the write-back", "A3-REPAIR", "updateOrModifyModel|write-back after difference", "updates", "", "updateOrModifyModel", kStmt, "err = info.SetField(column, updateNative)", 0, before("if !isDifferent {\ncontinue\n}"))
+	ctl("setDifference works in the larger operand", "A3-TABLE", "setDifference|in-place parameter b", "updates", "", "setDifference", kStmt, "difference := make(map[interface{}]struct{}, bv.Len())", 0, before("if bv.IsValid() && av.IsValid() && bv.Len() > av.Len() {\nav, bv = bv, av\n}"))
+	ctl("filterColumns edits the shared row", "S-PURE", "filterColumns|map delete", "server", "", "filterColumns", kStmt, "new := make(ovsdb.Row, len(*row))", 0, before("for k := range *row {\nif _, ok := columns[k]; !ok {\ndelete(*row, k)\n}\n}"))
+	ctl("intersectUUIDSets trims in place", "X5", "intersectUUIDSets arg", "cache", "", "intersectUUIDSets", kStmt, "f := uuidset{}", 0, to("f := small"))
+	ctl("late failure not reported", "R-REPORT", "result assignment reaches results[i]", "database/transaction", "Transaction", "Transact", kStmt, "result := r", 0, func(orig string) string {
+		return orig + "\nresults[i] = &result\nif u != nil {\nr = ovsdb.ResultFromError(fmt.Errorf(\"late\"))\n}"
+	})
+	ctl("deleted rows not filtered", "T-DELROWS", "Database.List overlaid", "database/transaction", "Transaction", "rowsFromTransactionCacheAndDatabase", kStmt, "delete(rows, rowUUID)", 0, del)
+	ctl("deletion tracked only for rows not yet cached", "DEL-TRACK", "applyReferenceUpdates", "database/transaction", "Transaction", "applyReferenceUpdates", kExpr, "old != nil && new == nil", 0, to("old != nil && new == nil && !t.Cache.Table(table).HasRow(uuid)"))
+	ctl("lookup hashes a local column list", "X6", "valueFromIndex columns", "cache", "RowCache", "IndexExists", kExpr, "indexSpec.columns", 0, to("append([]model.ColumnKey{}, indexSpec.columns...)[:len(indexSpec.columns)]"))
+	ctl("simpleAtomic ignores minLength", "K5", "simpleAtomic|member minLength", "ovsdb", "BaseType", "simpleAtomic", kExpr, "b.minLength == nil", 0, to("true"))
+	ctl("pass 2 starts at the second operation", "N-ALLOPS", "ExpandNamedUUIDs|loop over ops", "ovsdb", "", "ExpandNamedUUIDs", kStmt, "for i := range ops", 1, sub("for i := range ops", "for i := 1; i < len(ops); i++"))
+	registerControl(&ControlDef{Name: "Create keeps the previous model's uuid", Rule: "N-ITER", Expect: "(client.api).Create|loop-carried", Edit: func(p *Program) ([]TextEdit, error) {
+		decl, err := locate(p, "client", "api", "Create", kStmt, "var realUUID, namedUUID string", 0)
+		if err != nil {
+			return nil, err
+		}
+		loop, err := locate(p, "client", "api", "Create", kStmt, "var operations []ovsdb.Operation", 0)
+		if err != nil {
+			return nil, err
+		}
+		return []TextEdit{p.editReplace(decl, ""), p.editReplace(loop, p.text(loop)+"\nvar realUUID, namedUUID string")}, nil
+	}})
+	ctl("notification loop stops at the first idle connection", "PM-ALL", "processMonitors|loop without early exit", "server", "OvsdbServer", "processMonitors", kStmt, "for _, m := range c.monitors", 0, before("if len(c.monitors) == 0 {\nbreak\n}"))
+	ctl("cond_since always resumes from the last id", "E7", "resume-after-purge", "client", "ovsdbClient", "monitor", kExpr, "reconnecting && len(db.monitors) == 1", 0, to("reconnecting"))
+}
